@@ -57,7 +57,7 @@ EXTRA = {
 NAMES = ["a", "b", "c", "d", "e", "x y", "é", "A"]
 PHYS = ["m", "kg", "-", "mm", "s", "datetime", "N/m"]
 SPECIAL = ["text", "onoff"]
-KINDS = ["f", "f", "i", "b", "s", "s", "o", "M", "c", "I", "B", "f4", "fn", "sn", "m", "C"]
+KINDS = ["f", "f", "i", "b", "s", "s", "o", "M", "c", "I", "B", "f4", "fn", "sn", "m", "C", "Mz", "Mz", "F8", "P"]
 REFUSALS = ("ColumnUnitException", "InvalidNamingError", "ValueError")
 
 
@@ -88,6 +88,13 @@ def make_values(rng, kind, n):
         return np.array([rng.choice([1, "x", None, 2.5, True]) for _ in range(n)], dtype=object)
     if kind == "M":
         return pd.to_datetime(["2020-01-%02d" % rng.randint(1, 28) for _ in range(n)])
+    if kind == "Mz":
+        return pd.to_datetime(["2020-01-%02d 12:00" % rng.randint(1, 28) for _ in range(n)]).tz_localize(
+            rng.choice(["UTC", "Europe/Copenhagen"]))
+    if kind == "F8":
+        return pd.array([None if rng.random() < 0.3 else rng.randint(0, 9) / 4 for _ in range(n)], dtype="Float64")
+    if kind == "P":
+        return pd.period_range("2020-01", periods=n, freq="M").array if n else pd.array([], dtype="period[M]")
     if kind == "c":
         return pd.Categorical([rng.choice(["u", "v"]) for _ in range(n)], categories=["u", "v"])
     if kind == "I":
@@ -1182,39 +1189,55 @@ def run_writers(ctx, t):
     from pdtable import write_csv
     from pdtable.io.json import table_to_json_data
     from pdtable.io._excel_openpyxl import _append_table_to_openpyxl_worksheet
+    import pdtable
     res = {}
-    try:
+    # the separator of this probe: given explicitly, or as the (temporarily changed) package default
+    sep = ctx.rng.choice([";", ";", ",", "\t", "|"])
+    explicit = ctx.rng.random() < 0.5
+    ctx.out.count("csv_sep:" + repr(sep) + (":arg" if explicit else ":default"))
+    old_default = pdtable.CSV_SEP
+
+    def write(tab):
         s = io.StringIO()
-        quiet(write_csv, t, s)
-        lines = s.getvalue().split("\n")
-        res["csv"] = {"names": lines[2].split(";"), "units": lines[3].split(";"),
-                      "rows": [ln.split(";") for ln in lines[4:] if ln != ""]}
-    except Exception as e:
-        res["csv"] = exc_name(e)
-    # the same table written transposed (one line per column: name;unit;values...)
-    meta = None
+        if explicit:
+            quiet(write_csv, tab, s, sep=sep)
+        else:
+            quiet(write_csv, tab, s)
+        return s.getvalue().split("\n")
+
+    res["sep"] = sep
     try:
-        meta = quiet(lambda: t.metadata)
-        was = meta.transposed
-        meta.transposed = True
+        if not explicit:
+            pdtable.CSV_SEP = sep
         try:
-            s = io.StringIO()
-            quiet(write_csv, t, s)
-            lines = s.getvalue().split("\n")
-            ncol = len(t.df.columns)
-            res["csv_t"] = {"cols": [ln.split(";") for ln in lines[2:2 + ncol]], "head": lines[0]}
+            lines = write(t)
+            res["csv"] = {"names": lines[2].split(sep), "units": lines[3].split(sep),
+                          "rows": [ln.split(sep) for ln in lines[4:] if ln != ""], "head": lines[0]}
+        except Exception as e:
+            res["csv"] = exc_name(e)
+        # the same table written transposed (one line per column: name<sep>unit<sep>values...)
+        try:
+            meta = quiet(lambda: t.metadata)
+            was = meta.transposed
+            meta.transposed = True
             try:
-                wb = openpyxl.Workbook()
-                ws = wb.active
-                quiet(_append_table_to_openpyxl_worksheet, t, ws, 1, "-")
-                rows = list(ws.iter_rows(values_only=True))
-                res["xlsx_t"] = {"cols": [[r[0], r[1]] for r in rows[2:2 + ncol]], "head": rows[0][0]}
-            except Exception as e:
-                res["xlsx_t"] = exc_name(e)
-        finally:
-            meta.transposed = was
-    except Exception as e:
-        res["csv_t"] = exc_name(e)
+                lines = write(t)
+                ncol = len(t.df.columns)
+                res["csv_t"] = {"cols": [ln.split(sep) for ln in lines[2:2 + ncol]], "head": lines[0]}
+                try:
+                    wb = openpyxl.Workbook()
+                    ws = wb.active
+                    quiet(_append_table_to_openpyxl_worksheet, t, ws, 1, "-")
+                    rows = list(ws.iter_rows(values_only=True))
+                    res["xlsx_t"] = {"cols": [[r[0], r[1]] for r in rows[2:2 + ncol]], "head": rows[0][0]}
+                except Exception as e:
+                    res["xlsx_t"] = exc_name(e)
+            finally:
+                meta.transposed = was
+        except Exception as e:
+            res["csv_t"] = exc_name(e)
+    finally:
+        pdtable.CSV_SEP = old_default
     try:
         jd = quiet(table_to_json_data, t)
         res["json"] = [[k, v["unit"]] for k, v in jd["columns"].items()]
@@ -1298,6 +1321,9 @@ def oracle_c04(ctx, t, units, ures, lookups, it, wr):
     if "exc" in csv:
         out.count("csv_value_error:" + csv["exc"])            # cell formatting problems are not C04's subject
     else:
+        if csv["head"] != "**" + t.name + wr["sep"]:
+            return _fail(ctx, "write_csv does not use the separator it was given", csv["head"], "**" + t.name + wr["sep"],
+                         "C04:csv-separator")
         if not names and (csv["names"] != [""] or csv["units"] != [""]):
             return _fail(ctx, "write_csv emits names or units for a table without columns",
                          {"names": csv["names"], "units": csv["units"]}, {"names": [""], "units": [""]}, "C04:csv-pairing")
@@ -1314,9 +1340,15 @@ def oracle_c04(ctx, t, units, ures, lookups, it, wr):
             out.count("csv_transposed_value_error:" + csv_t["exc"])
         elif names:
             cols = csv_t["cols"]
+            if csv_t["head"] != "**" + t.name + "*" + wr["sep"]:
+                return _fail(ctx, "write_csv (transposed) does not use the separator it was given", csv_t["head"],
+                             "**" + t.name + "*" + wr["sep"], "C04:csv-separator")
             if [c[0] for c in cols] != [str(n) for n in names]:
                 return _fail(ctx, "write_csv (transposed) does not write one line per dataframe column in column order",
                              [c[0] for c in cols], names, "C04:csv-transposed-columns")
+            if any(len(c) < 2 for c in cols):
+                return _fail(ctx, "write_csv (transposed) does not separate column name and unit with the separator",
+                             cols, [[str(n), u] for n, u in zip(names, own)], "C04:csv-pairing")
             if all(len(c) == 2 + len(df) for c in cols):
                 written = {n: (c[1], c[2:]) for n, c in zip(names, cols)}
                 if _check_written_columns(ctx, t, names, own, written, "write_csv (transposed)"):
